@@ -85,6 +85,7 @@ type c06World struct {
 	T, S  *xibctesting.TestChain
 	// mirrors used by the ORACLE only (what governance registered / configured last)
 	lastReg map[string]c06Reg
+	tssCfg  map[string]string // chain -> TSS address as configured (mkclient) / rotated (accepted TSS update)
 	hist    []string
 	// proofs of the canonical pool
 	proofPkt map[uint64][]byte // S->T packet commitment proofs
@@ -148,7 +149,7 @@ func c06AckDecodes(bz []byte) bool {
 // ---- world -----------------------------------------------------------------------------------------
 
 func newC06World(t *testing.T) *c06World {
-	w := &c06World{t: t, lastReg: map[string]c06Reg{}, proofPkt: map[uint64][]byte{}, proofAck: map[uint64][]byte{}}
+	w := &c06World{t: t, lastReg: map[string]c06Reg{}, tssCfg: map[string]string{}, proofPkt: map[uint64][]byte{}, proofAck: map[uint64][]byte{}}
 	w.coord = xibctesting.NewCoordinator(t, 2)
 	w.T = w.coord.GetChain(xibctesting.GetChainID(0))
 	w.S = w.coord.GetChain(xibctesting.GetChainID(1))
@@ -346,6 +347,44 @@ func c06SameAccount(a, b string) bool {
 	return e1 == nil && e2 == nil && bytes.Equal(x, y)
 }
 
+// first address the proposal paired with the chain: (chain -> address) exactly as governance submitted it
+func (g c06Reg) addrFor(chain string) (string, bool) {
+	for i, c := range g.chains {
+		if c == chain && i < len(g.addrs) {
+			return g.addrs[i], true
+		}
+	}
+	return "", false
+}
+
+// the registration lists >= 2 different chains in non-sorted order with pairwise different addresses
+func (g c06Reg) multichainUnsorted() bool {
+	if len(g.chains) < 2 || len(g.chains) != len(g.addrs) || sort.StringsAreSorted(g.chains) {
+		return false
+	}
+	seenC, seenA := map[string]bool{}, map[string]bool{}
+	for i := range g.chains {
+		if seenC[g.chains[i]] || seenA[strings.ToLower(g.addrs[i])] {
+			return false
+		}
+		seenC[g.chains[i]], seenA[strings.ToLower(g.addrs[i])] = true, true
+	}
+	return true
+}
+
+// relayers whose own registration pairs the chain with an address that case-folds to a (payout side)
+func (w *c06World) payoutCandidates(chain, a string) map[string]bool {
+	out := map[string]bool{}
+	for rel, g := range w.lastReg {
+		for i, c := range g.chains {
+			if c == chain && i < len(g.addrs) && strings.EqualFold(g.addrs[i], a) {
+				out[rel] = true
+			}
+		}
+	}
+	return out
+}
+
 func c06Contains(l []string, s string) bool {
 	for _, x := range l {
 		if x == s {
@@ -420,6 +459,7 @@ func (w *c06World) apply1(r *Rec, f []string) string {
 			if err := ck.CreateClient(T.GetContext(), s(1), &tsstypes.ClientState{TssAddress: s(3)}, &tsstypes.ConsensusState{}); err != nil {
 				return "err"
 			}
+			w.tssCfg[s(1)] = s(3)
 			w.coord.CommitBlock(T)
 			return "ok"
 		}
@@ -451,7 +491,10 @@ func (w *c06World) apply1(r *Rec, f []string) string {
 		if (aerr == nil) != (f[1] == "1") {
 			return "flag-mismatch"
 		}
-		p := clienttypes.NewRegisterRelayerProposal("register relayer", "c06", addr, chains, addrs)
+		// the oracle's mirror keeps ITS OWN copy of the (chain -> address) pairs as submitted; the real code
+		// gets separate slices (it may reorder / rewrite what it is handed)
+		mirror := c06Reg{append([]string{}, chains...), append([]string{}, addrs...)}
+		p := clienttypes.NewRegisterRelayerProposal("register relayer", "c06", addr, append([]string{}, chains...), append([]string{}, addrs...))
 		if err := p.ValidateBasic(); err != nil {
 			r.Count("reg.rejected")
 			return "rej"
@@ -464,8 +507,11 @@ func (w *c06World) apply1(r *Rec, f []string) string {
 		if _, again := w.lastReg[addr]; again {
 			r.Count("reg.reregistration")
 		}
-		w.lastReg[addr] = c06Reg{chains, addrs}
+		w.lastReg[addr] = mirror
 		r.Count("reg.accepted")
+		if mirror.multichainUnsorted() {
+			r.Count("reg.accepted.multichain-unsorted")
+		}
 		var parts []string
 		for _, ir := range ck.GetAllRelayers(T.GetContext()) {
 			cs := make([]string, len(ir.Chains))
@@ -495,6 +541,14 @@ func (w *c06World) apply1(r *Rec, f []string) string {
 		if auth != (reg && c06Contains(lr.chains, s(1))) {
 			w.find(r, "C06/auth-relayer-differs-from-registration", "AuthRelayer disagrees with the last registration of the address",
 				fmt.Sprint(auth), fmt.Sprint(!auth))
+		}
+		if wantO, okO := lr.addrFor(s(1)); okO != of || (of && other != wantO) {
+			w.find(r, "C06/other-chain-address-differs-from-registration", "GetRelayerAddressOnOtherChain does not return the address governance paired with that chain for the relayer",
+				fmt.Sprintf("%q,%v", other, of), fmt.Sprintf("%q,%v", wantO, okO))
+		}
+		if cand := w.payoutCandidates(s(1), s(3)); tf != (len(cand) > 0) || (tf && !cand[tele]) {
+			w.find(r, "C06/payout-relayer-differs-from-registration", "GetRelayerAddressOnTeleport returns a relayer that did not register that counterparty address for that chain (or misses one that did)",
+				fmt.Sprintf("%q,%v", tele, tf), fmt.Sprintf("one of %d registered relayers", len(cand)))
 		}
 		fm := func(v string, ok bool) string {
 			if ok {
@@ -627,7 +681,10 @@ func (w *c06World) applyMsg(r *Rec, f []string) string {
 	isTss := hasClient && cs.ClientType() == exported.TSS
 	tssAddr := ""
 	if isTss {
-		tssAddr = cs.(*tsstypes.ClientState).TssAddress
+		tssAddr = w.tssCfg[chain] // the oracle's own record of the configured TSS account
+		if got := cs.(*tsstypes.ClientState).TssAddress; got != tssAddr {
+			w.find(r, "C06/tss-address-differs-from-configuration", "the TSS client's address is not the one configured / last rotated to", strconv.Quote(got), strconv.Quote(tssAddr))
+		}
 	}
 	before := w.xibcDump()
 	sideBefore := w.sideHash()
@@ -681,6 +738,17 @@ func (w *c06World) applyMsg(r *Rec, f []string) string {
 	if len(toks) > 0 {
 		out += " " + strings.Join(toks, " ")
 	}
+	if kind == "upd" && isTss && f[5] != "none" {
+		w.tssCfg[chain] = s(5) // accepted key rotation
+		r.Count("upd.accepted.tss-rotation")
+	}
+	if kind == "ack" && src == T.ChainID {
+		// payout side: the ack's relayer field must resolve to a relayer that registered it for the destination chain
+		if len(w.payoutCandidates(dst, s(9))) == 0 {
+			w.find(r, "C06/ack-accepted-without-registered-payout-relayer", "acknowledgement accepted although no relayer registered its relayer field for the destination chain",
+				"accepted, relayer field "+strconv.Quote(s(9)), "rejected")
+		}
+	}
 	if kind == "recv" {
 		if ackBz, ok := c06EventAck(res); ok {
 			var ack packettypes.Acknowledgement
@@ -688,11 +756,11 @@ func (w *c06World) applyMsg(r *Rec, f []string) string {
 				w.find(r, "C06/ack-undecodable", "written acknowledgement does not decode", err.Error(), "decodable")
 			}
 			out += " rl=" + hxs(ack.Relayer)
-			want, found := "", false
-			for i, c := range lr.chains {
-				if c == src && i < len(lr.addrs) {
-					want, found = lr.addrs[i], true
-					break
+			want, found := lr.addrFor(src)
+			if lr.multichainUnsorted() {
+				r.Count("recv.accepted.multichain-unsorted")
+				if src != lr.chains[0] {
+					r.Count("recv.accepted.multichain-unsorted.not-first-chain")
 				}
 			}
 			if !found || ack.Relayer != want {
